@@ -28,6 +28,8 @@ Print Assumptions C31_unflagged_unchanged.
 
 (* (2) A flagged record keeps attributes, timestamp delta, offset delta and key, loses
    exactly its LFS_BLOB headers, and its value is the encoding of an envelope for this
+   (every one of them: [rec_rel] says headers' = drop_header = filter, and flagged r' = false,
+   see C31_flag_headers_removed), and its value is the encoding of an envelope for this
    bucket whose key names an object that — in the store at any later point [stF] of the same
    request — holds exactly the original value, with size and SHA-256 of that value.  The
    object keys handed out by the oracle are pairwise distinct (fresh UUIDs). *)
@@ -38,6 +40,24 @@ Theorem C31_flagged_envelope :
   Forall2 (rec_rel hashf enc_env cfg (u_store stF)) rs rs'.
 Proof. exact process_records_spec. Qed.
 Print Assumptions C31_flagged_envelope.
+
+(* Headers are lists (repeated keys, any position, any value).  What (2) calls "loses exactly
+   its LFS_BLOB headers": the rewritten header list is the input list with EVERY entry whose
+   key is exactly the bytes "LFS_BLOB" removed (keys differing in case such as lfs_blob, or
+   LFS_BLOB_ALG, are ordinary headers) — no header with the flag key remains, the rest is an
+   order-preserving sublist that keeps every other key with its multiplicity, and the record
+   is no longer flagged for a later LFS-aware hop. *)
+Theorem C31_flag_headers_removed : forall k hs,
+  find_header k (drop_header k hs) = None /\
+  (forall h, In h (drop_header k hs) <-> In h hs /\ h_key h <> k) /\
+  sublist (drop_header k hs) hs /\
+  (forall k', k' <> k ->
+     filter (fun h => bytes_eqb (h_key h) k') (drop_header k hs) = filter (fun h => bytes_eqb (h_key h) k') hs).
+Proof.
+  intros k hs. split; [apply drop_header_none|]. split; [apply drop_header_in|].
+  split; [apply drop_header_sublist|]. intros k'. apply drop_header_other.
+Qed.
+Print Assumptions C31_flag_headers_removed.
 
 (* the state only grows along a request: what (2) calls "any later point" includes the
    end of every later batch of the request *)
@@ -128,13 +148,15 @@ Definition d_hash (a : Z) (b : bytes) : bytes := a :: 35 :: b.
 Example C31_nonvacuous :
   let cfg := mkCfg [98] [112] 1000 [] 5242880 in
   let r1 := mkRec 0 5 0 None (Some []) [mkHeader [97] None] in
-  let r2 := mkRec 0 (-3) 1 (Some []) (Some [1;2;3]) [mkHeader s_LFS_BLOB (Some []); mkHeader [97] (Some [])] in
+  let r2 := mkRec 0 (-3) 1 (Some []) (Some [1;2;3])
+              [mkHeader s_LFS_BLOB (Some []); mkHeader [97] (Some []); mkHeader s_LFS_BLOB None;
+               mkHeader [97] None; mkHeader s_LFS_BLOB (Some [122])] in
   let r3 := mkRec (-1) 7 2 (Some [9]) None [] in
   let st := mkUst [] [([107;49], [116])] [] 0 [] in
   match process_records d_hash d_env cfg st [r1; r2; r3] with
   | Ok (rs', st', ch) =>
       ch = true /\ nth 0 rs' r2 = r1 /\ nth 2 rs' r2 = r3 /\
-      r_hdrs (nth 1 rs' r1) = [mkHeader [97] (Some [])] /\
+      r_hdrs (nth 1 rs' r1) = [mkHeader [97] (Some []); mkHeader [97] None] /\ flagged (nth 1 rs' r1) = false /\
       r_val (nth 1 rs' r1) = Some (d_env (mkEnv [98] [107;49] 3 (d_hash 0 [1;2;3]) (d_hash 0 [1;2;3]) s_sha256 [] [] [116] [112])) /\
       u_store st' = [([107;49], [1;2;3])]
   | _ => False
